@@ -23,6 +23,7 @@ import (
 	"sync"
 
 	"chainguard.dev/apko/pkg/apk/internal/tarfs"
+	"chainguard.dev/apko/pkg/verifhook"
 	"github.com/klauspost/compress/gzip"
 
 	"go.opentelemetry.io/otel"
@@ -159,14 +160,18 @@ func (a *APKExpanded) PackageData() (*os.File, error) {
 
 	buf := pooledSlice()
 	defer slicePool.Put(buf)
+	verifhook.Point("rebuild.created")
 
 	if _, err := io.CopyBuffer(uf, zr, buf); err != nil {
 		return nil, fmt.Errorf("decompressing %q: %w", a.PackageFile, err)
 	}
 
+	verifhook.Point("rebuild.copied")
+
 	if err := uf.Close(); err != nil {
 		return nil, fmt.Errorf("closing %q: %w", a.TarFile, err)
 	}
+	verifhook.Point("rebuild.closed")
 
 	return os.Open(a.TarFile)
 }
@@ -369,6 +374,8 @@ func ExpandApk(ctx context.Context, source io.Reader, cacheDir string) (*APKExpa
 		return nil, err
 	}
 
+	verifhook.Point("expand.tempdir-created")
+
 	sw, err := newExpandApkWriter(dir, "stream", "tar.gz")
 	if err != nil {
 		return nil, fmt.Errorf("expandApk error 1: %w", err)
@@ -395,6 +402,7 @@ func ExpandApk(ctx context.Context, source io.Reader, cacheDir string) (*APKExpa
 			}
 		}
 
+		verifhook.Point("expand.stream-created")
 		hr := io.TeeReader(tr, h)
 
 		if gzi == nil {
@@ -425,6 +433,7 @@ func ExpandApk(ctx context.Context, source io.Reader, cacheDir string) (*APKExpa
 			if err != nil {
 				return nil, fmt.Errorf("opening tar file: %w", err)
 			}
+			verifhook.Point("expand.tar-created")
 			bw := pooledBufioWriter(tarfile)
 			defer writerPool.Put(bw)
 
@@ -444,6 +453,7 @@ func ExpandApk(ctx context.Context, source io.Reader, cacheDir string) (*APKExpa
 			if err := tarfile.Close(); err != nil {
 				return nil, fmt.Errorf("closing tarfile: %w", err)
 			}
+			verifhook.Point("expand.tar-closed")
 			gzipStreams = append(gzipStreams, sw.CurrentName())
 			hashes = append(hashes, h.Sum(nil))
 			break
@@ -456,6 +466,8 @@ func ExpandApk(ctx context.Context, source io.Reader, cacheDir string) (*APKExpa
 	if err := sw.CloseFile(); err != nil {
 		return nil, fmt.Errorf("expandApk error 7: %w", err)
 	}
+
+	verifhook.Point("expand.streams-closed")
 
 	numGzipStreams := len(gzipStreams)
 
